@@ -32,8 +32,8 @@ Section Sites.
     end.
   Definition run (h : list ev) : st := fold_left step h init.
 
-  (* tasks kept alive by the open connections: reader and watchdog of the client, handler of the peer *)
-  Definition tasks (s : st) : nat := 3 * length (open s).
+  (* tasks kept alive by the open connections: reader of the client, serving task of the peer *)
+  Definition tasks (s : st) : nat := 2 * length (open s).
   Definition open_at (s : st) (i : nat) : nat := length (filter (fun c => Nat.eqb (snd c) i) (open s)).
 
   Definition all_closed : bool := forallb s_closes sites.
